@@ -16,9 +16,9 @@ using namespace pbt;
 // op kinds
 enum { BODY = 0, MAIN = 1 };
 // body actions
-enum { B_ATEXIT = 0, B_SLEEP = 1, B_CHILD = 2, B_POINT = 3 };
+enum { B_ATEXIT = 0, B_SLEEP = 1, B_CHILD = 2, B_POINT = 3, B_CALL_ONCE = 4, NBODY = 5 };
 // main actions
-enum { M_LAUNCH_J = 0, M_LAUNCH_M = 1, M_JOIN = 2, M_JOIN_ALL = 3, M_SLEEP = 4, M_COUNT = 5 };
+enum { M_LAUNCH_J = 0, M_LAUNCH_M = 1, M_JOIN = 2, M_JOIN_ALL = 3, M_SLEEP = 4, M_COUNT = 5, M_SET_TIMEOUT = 6, NMAIN = 7 };
 
 static const uint64_t SLEEPS[] = {1000ull, 1000000ull, 5000000ull, 20000000ull};
 static const int NJ = 3, NM = 4, NC = 6, NSLOT = NJ + NM + NC; // joinable 0..2, managed by main 3..6, children 7..12
@@ -30,17 +30,19 @@ static Case gen_case() {
     c.cfg = {pick(0, 1), chance(35) ? pick(0, (1u << NSLOT) - 1) : 0};
     c.ops = op_list(45, [] {
         if (chance(45)) {
-            switch (weighted({3, 4, 4, 3, 2, 1})) {
+            switch (weighted({3, 4, 4, 3, 2, 1, 1})) {
             case 0: return mkop(MAIN, {M_LAUNCH_J});
             case 1: return mkop(MAIN, {M_LAUNCH_M});
             case 2: return mkop(MAIN, {M_JOIN, pick(0, NJ - 1)});
             case 3: return mkop(MAIN, {M_JOIN_ALL});
             case 4: return mkop(MAIN, {M_SLEEP, pick(0, 3)});
-            default: return mkop(MAIN, {M_COUNT});
+            case 5: return mkop(MAIN, {M_COUNT});
+            default: return mkop(MAIN, {M_SET_TIMEOUT, pick(0, 3)});
             }
         }
         uint64_t slot = pick(0, NSLOT - 1);
-        switch (weighted({4, 4, 3, 1})) {
+        switch (weighted({4, 4, 3, 1, 1})) {
+        case 4: return mkop(BODY, {slot, B_CALL_ONCE});
         case 0: return mkop(BODY, {slot, B_ATEXIT});
         case 1: return mkop(BODY, {slot, B_SLEEP, pick(0, 3)});
         case 2: return mkop(BODY, {slot, B_CHILD});
@@ -84,8 +86,14 @@ struct World {
     int pinned_launches = 0;
     int at_exits = 0, child_launches = 0;
     std::vector<AtExit *> all_at_exit;
+    aws_thread_once once_flag = AWS_THREAD_ONCE_STATIC_INIT;
+    int once_calls = 0;
+    uint64_t join_timeout = 0;
+    int timed_out_join_alls = 0;
 };
+static void once_fn(void *ud) { ((World *)ud)->once_calls++; }
 
+static void once_fn(void *ud);
 static void atexit_cb(void *ud) {
     AtExit *a = (AtExit *)ud;
     World &w = *a->w;
@@ -108,7 +116,7 @@ static void thread_fn(void *arg) {
     for (auto &op : w.c->ops) {
         if (op.kind != BODY || (int)(op.arg(0) % NSLOT) != s.slot) continue;
         if (w.ctx->failed) break;
-        switch (op.arg(1) % 4) {
+        switch (op.arg(1) % NBODY) {
         case B_ATEXIT: {
             if (s.registered.size() >= 4) break;
             AtExit *a = new AtExit{&w, s.slot, (int)s.registered.size()};
@@ -128,6 +136,11 @@ static void thread_fn(void *arg) {
                 w.child_launches++;
                 launch(w, ch, true, s.depth + 1);
             }
+            break;
+        case B_CALL_ONCE:
+            // aws_thread_call_once on a library thread must leave the thread's own bookkeeping alone: at-exit
+            // registrations made afterwards still have to be accepted and run
+            aws_thread_call_once(&w.once_flag, once_fn, &w);
             break;
         default: ds::point(); break;
         }
@@ -184,7 +197,13 @@ static void join_all(World &w) {
     for (int i = NJ; i < NSLOT; i++)
         if (w.s[i].launched) before.push_back(i);
     int rc = aws_thread_join_all_managed();
-    if (rc != AWS_OP_SUCCESS) ctx.note_fail("aws_thread_join_all_managed failed");
+    if (rc != AWS_OP_SUCCESS && w.join_timeout != 0) {
+        // a join time-out is set and some thread was still running at the deadline: documented failure, nothing is
+        // promised about this call - but nothing may be lost either: the final join-all (no time-out) checks that
+        w.timed_out_join_alls++;
+        return;
+    }
+    if (rc != AWS_OP_SUCCESS) ctx.note_fail("aws_thread_join_all_managed failed although no join time-out is set");
     for (int i : before) check_thread_finished(w, w.s[i], "after join_all_managed");
     // main is the only top-level launcher and all managed threads are done: nothing can be outstanding
     for (int i = NJ; i < NSLOT; i++)
@@ -219,7 +238,7 @@ static void run(const Case &c, Ctx &ctx) {
         for (auto &op : c.ops) {
             if (op.kind != MAIN) continue;
             if (ctx.failed) break;
-            switch (op.arg(0) % 6) {
+            switch (op.arg(0) % NMAIN) {
             case M_LAUNCH_J:
                 if (w.next_j < NJ) launch(w, w.s[w.next_j++], false, 0);
                 break;
@@ -229,10 +248,18 @@ static void run(const Case &c, Ctx &ctx) {
             case M_JOIN: join_one(w, w.s[op.arg(1) % NJ]); break;
             case M_JOIN_ALL: join_all(w); break;
             case M_SLEEP: aws_thread_current_sleep(SLEEPS[op.arg(1) % 4]); break;
+            case M_SET_TIMEOUT: {
+                static const uint64_t TO[] = {0, 1000000ull, 10000000ull, 40000000ull};
+                w.join_timeout = TO[op.arg(1) % 4];
+                aws_thread_set_managed_join_timeout_ns(w.join_timeout);
+                break;
+            }
             default: (void)aws_thread_get_managed_thread_count(); break;
             }
         }
         if (ctx.failed) return;
+        w.join_timeout = 0;
+        aws_thread_set_managed_join_timeout_ns(0);
         for (int i = 0; i < NJ; i++) join_one(w, w.s[i]);
         join_all(w);
         if (!ctx.failed) join_all(w); // a second call with nothing outstanding returns at once
@@ -261,6 +288,9 @@ static void run(const Case &c, Ctx &ctx) {
     if (w.child_launches) ctx.tag("managed_launches_managed");
     if (w.at_exits) ctx.tag("at_exit");
     if (w.pinned_launches) ctx.tag("launch_with_impossible_cpu_pin");
+    if (w.timed_out_join_alls) ctx.tag("join_all_timed_out");
+    if (w.once_calls) ctx.tag("call_once_on_library_thread");
+    PBT_CHECK(w.once_calls <= 1, "aws_thread_call_once ran its function %d times", w.once_calls);
     if (managed == 0) ctx.tag("no_managed");
     ctx.nontrivial = w.at_exits >= 1 && ((managed >= 3 && out_of_order) || w.child_launches);
 }
